@@ -210,6 +210,40 @@ def run(chk, tier):
                 and stops[0][2] in want_x[v] and stops[1][2] in want_x[v]
             chk.expect(ok, "object-builders", name, v, f"read_until: t <= X; read_to: t < X; X in {want_x[v]}", stops, loc=f"{h['loc']['f']}:{ln}")
     chk.floor("object-builders", "stop comparators", n_cmp, 12)
+    # what each builder constructs per token kind: constructor and the operands taken from the token
+    acts = {}
+    for name, h in (("build_object", hb), ("collect_elements", hc)):
+        ms = [m for m in H.walk(h["body"]) if H.kind(m) == "match" and m[3].endswith("dataset::DataToken")]
+        m = max(ms, key=lambda mm: len(mm[4]))
+        for p, g, b, ln in H.match_arms(m):
+            hd = H.pat_head(H.pat_alts(p)[0])
+            v = hd[1].split("::")[-1] if hd[0] == "variant" else None
+            if v not in want_x:
+                continue
+            made = []
+            for x in H.walk(b):
+                if H.kind(x) == "call" and re.search(r"header::DataElement::<.*>::(new|new_with_len)$", H.callee(x) or ""):
+                    ctor = (H.callee(x) or "").split("::")[-1]
+                    args = [H.show(a, 3).replace("dicom_core::header::", "") for a in H.call_args(x)]
+                    args = ["Tag(32736, 16)" if a == "sq_start_tag" else a for a in args]
+                    nfix = 3 if ctor == "new_with_len" else 2
+                    made.append((ctor, tuple(args[:nfix])))
+            seq_len = None
+            if v == "SequenceStart":
+                # the sequence value carries the same length
+                for x in H.walk(b):
+                    if H.kind(x) == "call" and re.search(r"(DataSetSequence::<.*>::new|Value::<.*>::new_sequence|DataSetSequence::new|::new_sequence)$", H.callee(x) or ""):
+                        seq_len = H.show(H.call_args(x)[-1], 3)
+            acts[(name, v)] = (made, seq_len, ln)
+    want_act = {"PixelSequenceStart": [("new", ("Tag(32736, 16)", "VR::OB"))], "ElementHeader": [("new_with_len", ("header.tag", "header.vr", "header.len"))],
+                "SequenceStart": [("new_with_len", ("tag", "VR::SQ", "len"))]}
+    for v, w in want_act.items():
+        a, b2 = acts.get(("build_object", v)), acts.get(("collect_elements", v))
+        chk.expect(a is not None and b2 is not None and a[0] == w and b2[0] == w, "object-builders", "build_object~collect_elements", f"{v}/constructed-element",
+                   w, {"build_object": a[0] if a else None, "collect_elements": b2[0] if b2 else None}, loc=f"{hc['loc']['f']}:{b2[2] if b2 else 0}")
+        if v == "SequenceStart":
+            chk.expect(a and b2 and a[1] == "len" and b2[1] == "len", "object-builders", "build_object~collect_elements", "SequenceStart/sequence-length", "sequence value built with (items, len)",
+                       {"build_object": a[1] if a else None, "collect_elements": b2[1] if b2 else None})
 
     # ---------- rule 3
     chk.rule("first-item-flag", "collector build_encapsulated_data: `first` is cleared when the first item's value is read and when the first item ends without a value")
